@@ -305,6 +305,38 @@ def r7_no_transform_after_restore(ctx, rep):
     from . import c18
     c18.r2_no_transform_after_restore(ctx, rep)
 
+
+def r8_include_lines(ctx, rep):
+    """an INCLUDE line is the keyword followed by a character literal; a statement that merely begins with the word
+    (`include = 3`, `include_flag = .true.` after a blank) is an ordinary statement.  The recogniser of
+    FortranReader.include is read from the code (a startswith constant or a regular expression on the lower-cased pending
+    line) and compared as a language with the reference"""
+    py, rx = ctx.py, ctx.rx
+    fn = py.func("FortranReader.include")
+    rec = None
+    node = fn
+    for c in py.walk_calls(fn):
+        if isinstance(c.func, ast.Attribute) and c.func.attr == "startswith" and c.args and isinstance(c.args[0], ast.Constant) \
+                and isinstance(c.args[0].value, str) and "include" in c.args[0].value.lower():
+            rec = rx.cat(rx.full(re.escape(c.args[0].value), re.IGNORECASE), rx.ANYSTAR)
+            node = c
+        elif isinstance(c.func, ast.Attribute) and c.func.attr in ("match", "fullmatch", "search"):
+            owner = ast.unparse(c.func.value).split(".")[-1]
+            for k, (pat, flags, _n, _o) in ctx.regexes.items():
+                if k.split(".")[-1] == owner and "include" in pat.lower():
+                    rec = {"match": rx.match_lang, "fullmatch": rx.full, "search": rx.search_lang}[c.func.attr](pat, flags)
+                    node = c
+    if rec is None:
+        raise AnalysisError("FortranReader.include: the test that recognises an INCLUDE line was not found")
+    ref = rx.full(r"include\s*(?:'[^']*'|\"[^\"]*\")\s*", re.IGNORECASE)
+    w = rx.witness(rx.conj(rec, rx.neg(ref), rx.full(r"[a-z =0-9'\"_.]*", re.IGNORECASE)))
+    rep.ob("only `include <character literal>` is taken for an INCLUDE line", w is None,
+           "the recogniser requires the quoted file name" if w is None else
+           f"`{w}` is taken for an INCLUDE line: an assignment to a variable named `include` makes FORD look for a file of that "
+           f"name and reject the whole source file", py.nloc(node), witness=w)
+    w2 = rx.subset_witness(rx.full(r"include '[a-z.]+'", re.IGNORECASE), rec)
+    rep.ob("`include 'file'` is recognised", w2 is None, "" if w2 is None else f"`{w2}` is not recognised", py.nloc(node), witness=w2)
+
 RULES = [
     RuleSpec("C02.R6", r6_masking_cursor, "masking loops advance past the placeholder (shared with C20.R4)", floor=2),
     RuleSpec("C02.R1", r1_comment_recogniser, "comment recogniser == Fortran comment rule", floor=6),
@@ -312,5 +344,6 @@ RULES = [
     RuleSpec("C02.R3", r3_scanners, "character scanners == reference automaton", floor=1),
     RuleSpec("C02.R4", r4_masking, "masking dominates dispatch; case folding after masking", floor=2),
     RuleSpec("C02.R5", r5_continuation, "continuation joining removes exactly the & characters", floor=3),
+    RuleSpec("C02.R8", r8_include_lines, "INCLUDE lines are recognised by keyword plus literal", floor=2),
     RuleSpec("C02.R7", r7_no_transform_after_restore, "no rewriting after literals are re-inserted (shared with C18.R2)", floor=2),
 ]
